@@ -224,6 +224,8 @@ def check_C04(tier):
     t = tier == "thorough"
     engine_witness(c, "AggEmptyGroupDropped", "CoreMenu", lines="LinesAgg")
     engine_run(c, "agg", "AggMenu", lines="LinesAgg", maxlines=4 if t else 3, maxfiles=1, tdefs=("plain",) if not t else ("plain", "knn", "vdef"), modes=("batch",))
+    # aggregates over TIMESTAMP and INTERVAL values (MIN / MAX by instant, SUM / AVG of intervals, GROUP BY a timestamp, DISTINCT on them)
+    engine_run(c, "calendar-agg", "CalAggMenu", lines="LinesCal", maxlines=3, maxfiles=1, tdefs=("plain",), modes=("batch",))
     engine_sim(c, "agg", "AggMenu", lines="LinesRich", maxlines=10, num=2500 if t else 200, modes=("batch",))
     c.rule, c.assumptions, c.exhaustive = ENGINE_RULE, ENGINE_ASSUME, True
     return c.finish()
@@ -235,6 +237,8 @@ def check_C03(tier):
     engine_run(c, "select", "SelectMenu", lines="Lines4", maxlines=4 if t else 3, maxfiles=2 if t else 1, modes=("batch", "incr"))
     engine_run(c, "select-extremes", "SelectMenu", lines="LinesBig", maxlines=2 if t else 1, maxfiles=1, modes=("batch", "incr"), tdefs=("plain", "vdef"))
     engine_run(c, "functions", "FunctionMenu", lines="LinesAgg", maxlines=3 if t else 2, maxfiles=1, modes=("incr", "batch"), tdefs=("plain",))
+    # timestamps and intervals (calendar arithmetic under TZ=UTC), pow / sqrt / regex_matches / date_trunc / EXTRACT(EPOCH), casts between them
+    engine_run(c, "calendar", "CalMenu", lines="LinesCal", maxlines=2 if t else 1, maxfiles=1, modes=("incr", "batch"), tdefs=("plain",))
     # impl -> spec, semantic: random typed expression trees (depth <= 4) evaluated by the real engine; TLC evaluates Expr.Eval on each
     trace_check(c, "expr", "Trace_Expr", 12000 if t else 4000, "expr", "random expression trees vs Expr.Eval", constants={"Dev": set()}, rounds=3 if t else 1, env={"TZ": "UTC"})
     laws_trace(c, 2 if t else 1, 300 if t else 100)
@@ -289,6 +293,7 @@ def check_C11(tier):
     engine_follow_run(c, "tables", "CoreMenu", lines="LinesAgg", maxlines=4 if t else 3, tdefs=("plain", "knn"), sample=4000 if t else 1200)
     # line-by-line feeding of a statement with a join (library API: with_executed_joined_table + execute per line)
     engine_run(c, "incr-join", "JoinMenu", lines="LinesJ", maxlines=3 if t else 2, maxfiles=1, joinsets="JoinSets", modes=("incr",), tdefs=("plain",))
+    engine_run(c, "incr-calendar", "CalAggMenu", lines="LinesCal", maxlines=3 if t else 2, maxfiles=1, modes=("incr",), tdefs=("plain",))
     laws_trace(c, 2 if t else 1, 300 if t else 100)
     engine_sim(c, "incr", "AggMenu", lines="LinesRich", maxlines=10, num=2000 if t else 150, modes=("incr",))
     engine_sim(c, "incr-core", "CoreMenu", lines="Lines4", maxlines=12, num=1000 if t else 80, modes=("incr",))
@@ -311,6 +316,8 @@ def check_C06(tier):
     t = tier == "thorough"
     engine_run(c, "noise", "CoreLimitMenu", lines="LinesNoise", maxlines=4 if t else 3, maxfiles=1, modes=("batch", "incr"), tdefs=("plain", "knn", "vdef", "bothnn"))
     engine_run(c, "noise-join", "JoinMenu", lines="LinesNoise", maxlines=2, maxfiles=1, tdefs=("plain", "knn"))
+    # a pattern anchored at both ends (^...$) and noise lines longer than the reader's buffers (8 KiB, 64 KiB) whose tail reads like a row
+    engine_run(c, "noise-long", "CoreLimitMenu", lines="LinesNoiseLong", maxlines=3, maxfiles=2 if t else 1, modes=("batch", "incr"), tdefs=("anch",))
     laws_trace(c, 2 if t else 1, 300 if t else 100)
     engine_sim(c, "noise", "CoreLimitMenu", lines="LinesNoise", maxlines=12, num=1500 if t else 120, tdefs=("plain", "bothnn"))
     c.rule, c.assumptions, c.exhaustive = ENGINE_RULE, ENGINE_ASSUME, True
@@ -572,6 +579,11 @@ def check_C09(tier):
     # operators / functions / subscripts / casts / CASE / IN on boundary values: value, error or (never) a crash
     engine_run(c, "boundary", "BoundaryMenu", lines="LinesOne", maxlines=1, maxfiles=1, modes=("incr",), tdefs=("plain",),
                invs=["TypeOK", "IncrSelectRefinesSem"], props=())
+    # interval texts / sums / differences beyond the representable range, timestamps at the ends of the calendar, date parts beyond their fields,
+    # pow / sqrt / date_trunc / EXTRACT(EPOCH) / regex_matches on extremes and wrong types
+    engine_run(c, "cal-boundary", "CalBoundaryMenu", lines="LinesOne", maxlines=1, maxfiles=1, modes=("incr",), tdefs=("plain",),
+               invs=["TypeOK", "IncrSelectRefinesSem"], props=())
+    engine_run(c, "cal-boundary-agg", "CalBoundaryAggMenu", lines="LinesPair", maxlines=2, maxfiles=1, modes=("batch", "incr"), tdefs=("plain",), invs=["TypeOK"], props=())
     # aggregates over groups whose argument is NULL everywhere, extremes in running sums, HAVING on empty aggregates
     engine_run(c, "agg-null", "AggMenu", lines="LinesAgg", maxlines=2, maxfiles=1, tdefs=("plain",), invs=["TypeOK", "BatchRefinesSem"], props=())
     engine_run(c, "order-extremes", "OrderMenu", lines="LinesAgg", maxlines=2, maxfiles=1, tdefs=("plain",), invs=["TypeOK"], props=())
